@@ -1,6 +1,6 @@
 (* C02 — no access outside the allocated block while within declared capacity. *)
-From Coq Require Import ZArith List Bool.
-From Cntgs Require Import Base Layout Mem Vector Spec Rep EsizeThm Refine C02Thm NeededThm C02Hist NtRefine C02HistNt.
+From Coq Require Import ZArith List Bool Lia.
+From Cntgs Require Import Base Layout Mem Vector Spec Rep EsizeThm Refine C02Thm NeededThm C02Hist NtRefine C02HistNt EmplacePos.
 Import ListNotations.
 Local Open Scope Z_scope.
 
@@ -101,3 +101,61 @@ Theorem C02_every_history_stays_inside_the_block_every_list : forall L cap budge
     Forall2 (fun a t => 0 <= a /\ elem_end L a t <= SA L * v_units v) offs l.
 Proof. exact every_element_inside_block_every_history_ntx. Qed.
 Print Assumptions C02_every_history_stays_inside_the_block_every_list.
+
+(* ---------- emplace(position, args...) ----------
+   "no operation reads or writes outside the memory": emplace(position) is an operation too
+   (vector.hpp:174-188; upstream's own tests of it are skipped).  Modelled where the code is
+   functional - lists without a VaryingSize parameter (the model is the trivially relocatable
+   path: memmove + memcpy).  What it does to the represented list is an insert ... *)
+Theorem C02_emplace_position_inserts : forall L, wf_plist L = true -> has_varying L = false ->
+  forall v l offs, RepO L v l offs ->
+  forall i t, (i <= length l)%nat -> Z.of_nat (length l) < v_cap v ->
+  tuple_ok L (fixed_counts L (v_fixed v)) 0 t ->
+  let v' := fst (emplace_pos L v (Z.of_nat i) t) in
+  Rep L v' (linsert i t l) /\ v_cap v' = v_cap v /\ v_fixed v' = v_fixed v.
+Proof. exact emplace_pos_rep. Qed.
+Print Assumptions C02_emplace_position_inserts.
+
+(* ... but on the way it writes the bytes [stride*(i+1), stride*(n+2)): one element BEYOND the
+   n+1 elements the vector holds afterwards (the scratch copy of the new element) *)
+Theorem C02_emplace_position_writes_one_element_behind_the_end : forall L, has_varying L = false ->
+  forall v l offs, RepO L v l offs ->
+  forall i t, (i <= length l)%nat ->
+  In (ERaw (bidn (v_bid v)) (v_stride v * (Z.of_nat i + 1)) (v_stride v * (Z.of_nat (length l) + 2)))
+     (snd (emplace_pos L v (Z.of_nat i) t)).
+Proof. exact emplace_pos_writes. Qed.
+Print Assumptions C02_emplace_position_writes_one_element_behind_the_end.
+
+(* ... hence outside the block when the vector becomes full: the recorded finding
+   emplace-position-scratch.  ContiguousVector<uint64_t> v{3}; two emplace_back;
+   v.emplace(v.begin(), x): the block has 24 bytes, the call writes up to byte 32 *)
+Definition c02eL : list param := [ {| pk := Plain; psz := 8; pal := 8; pty := TUInt |} ].
+Definition c02et (b : Z) : tuple := [[[b; 0; 0; 0; 0; 0; 0; 0]]].
+Theorem C02_emplace_position_refuted :
+  let v0 := fst (mkvec c02eL 3 0 [] 0 (fun _ => 170) 0%nat 1%nat) in
+  let v2 := fst (emplace_back c02eL (fst (emplace_back c02eL v0 (c02et 1))) (c02et 2)) in
+  wf_plist c02eL = true /\ has_varying c02eL = false /\ all_triv c02eL = true /\
+  Rep c02eL v2 [c02et 1; c02et 2] /\ v_cap v2 = 3 /\
+  exists lo hi, In (ERaw (bidn (v_bid v2)) lo hi) (snd (emplace_pos c02eL v2 0 (c02et 7))) /\
+                SA c02eL * v_units v2 < hi.
+Proof.
+  cbv zeta.
+  split; [reflexivity|]. split; [reflexivity|]. split; [reflexivity|].
+  assert (Hwf : wf_plist c02eL = true) by reflexivity.
+  assert (Hst : has_varying c02eL = false -> stride_ok c02eL (fixed_counts c02eL []) (snd (esize c02eL []))).
+  { intros Hnv. apply esize_stride_ok; auto. apply fixed_counts_nonneg; auto. }
+  destruct (mkvec_rep c02eL Hwf 3 0 [] 0 (fun _ => 170) 0%nat 1%nat ltac:(lia) Hst) as (R0 & Hc0 & Hf0).
+  cbv zeta in *.
+  assert (T : forall b, tuple_ok c02eL (fixed_counts c02eL []) 0 (c02et b)).
+  { intros b. cbn. repeat split; try reflexivity. repeat constructor. }
+  pose proof (emplace_rep c02eL Hwf _ _ (c02et 1) R0 ltac:(rewrite Hc0; cbn; lia)
+                ltac:(rewrite Hf0; apply T)) as R1.
+  assert (Hf1 : v_fixed (fst (emplace_back c02eL (fst (mkvec c02eL 3 0 [] 0 (fun _ => 170) 0%nat 1%nat)) (c02et 1))) = []) by reflexivity.
+  assert (Hc1 : v_cap (fst (emplace_back c02eL (fst (mkvec c02eL 3 0 [] 0 (fun _ => 170) 0%nat 1%nat)) (c02et 1))) = 3) by reflexivity.
+  pose proof (emplace_rep c02eL Hwf _ _ (c02et 2) R1 ltac:(rewrite Hc1; cbn; lia)
+                ltac:(rewrite Hf1; apply T)) as R2.
+  split; [exact R2|]. split; [reflexivity|].
+  exists 8, 32. split; [|vm_compute; reflexivity].
+  vm_compute. left. reflexivity.
+Qed.
+Print Assumptions C02_emplace_position_refuted.
